@@ -75,6 +75,23 @@ def run(ctx: Context) -> None:
         _r2(ctx, tree, N)
         # ---- R3 / R4 / R5 / R6
         _tls(ctx, tree, N)
+    # R7: TLS contexts are mutated (set_alpn_protocols) right before each handshake: the default context must be a fresh object
+    # per call, never a cached / module-level instance shared by pools with different settings
+    sslm = ctx.prog.module("httpcore._ssl")
+    dsc = sslm.functions.get("default_ssl_context")
+    if dsc is None:
+        raise AnalysisError("anchor vanished: default_ssl_context")
+    cached = [d for d in dsc.decorators if "cache" in d]
+    creates = [c for c in own_nodes(dsc.node) if isinstance(c, ast.Call) and norm(c.func) in ("ssl.create_default_context", "ssl.SSLContext")]
+    rets = [r for r in own_nodes(dsc.node) if isinstance(r, ast.Return) and r.value is not None]
+    fresh = bool(creates) and not cached and all(isinstance(r.value, (ast.Name, ast.Call)) and (not isinstance(r.value, ast.Name) or any(
+        isinstance(a, ast.Assign) and norm(a.targets[0]) == r.value.id and a.value in creates for a in own_nodes(dsc.node))) for r in rets)
+    module_ctx = [k for k, v in sslm.assigns.items() if isinstance(v, ast.Call) and "SSLContext" in norm(v.func) or isinstance(v, ast.Call) and "create_default_context" in norm(v.func)]
+    rep.ob("C10.R7", "shared|default_ssl_context|fresh-per-call", fresh and not module_ctx, where(dsc),
+           "default_ssl_context() builds a new SSLContext on every call" if fresh and not module_ctx else
+           f"default_ssl_context() hands out a shared SSLContext (decorators {dsc.decorators}, module-level contexts {module_ctx}): ALPN set for one pool's handshake leaks into another pool's - "
+           "h2 is offered (and spoken) where HTTP/2 is disabled")
+    rep.rule("C10.R7", "the default TLS context is a fresh object per call (it is mutated before each handshake)")
     rep.assume("Origin equality covers scheme, host and port (C19.R2)")
 
 
@@ -234,8 +251,9 @@ def _tls(ctx: Context, tree: str, N: Names) -> None:
             okb = bool(sn) and bool(tn) and cfg.dominates(sn[0], tn[0]) and not between
             rep.ob("C10.R5", fkey(tree, f, "alpn-set-before-handshake"), okb, where(f, alpn_calls[0]),
                    "ALPN is set on the context right before its handshake (no network operation in between)" if okb else
-                   f"a network operation ({between[0].text() if between else 'path'}) lies between set_alpn_protocols and start_tls: another connection sharing the SSLContext can "
-                   "overwrite the ALPN list meanwhile, so h2 is offered (and spoken) although HTTP/2 is disabled")
+                   (f"a network operation ({between[0].text()}) lies between set_alpn_protocols and start_tls: another connection sharing the SSLContext can "
+                    "overwrite the ALPN list meanwhile, so h2 is offered (and spoken) although HTTP/2 is disabled") if between else
+                   "set_alpn_protocols does not run on every path to the handshake: the context keeps whatever ALPN list an earlier user left on it")
     # R6 HTTP/2 selection
     nsel = 0
     for mod, q in (("connection", "AsyncHTTPConnection.handle_async_request"), ("socks_proxy", "AsyncSocks5Connection.handle_async_request"),
